@@ -276,6 +276,16 @@ func (fr *Frame) ringCall(st *State, fn *ssa.Function, args []Value) (Value, boo
 	if p, ok := rt.(*types.Pointer); ok {
 		rt = p.Elem()
 	}
+	if !v.isRing(rt) && v.isAbstract(rt) && fn.Name() == "Set" && len(args) == 2 {
+		// z.Set(x) on a value of an uninterpreted sort: plain copy (the library's Set methods copy field by field)
+		if pv, ok := args[1].(*PtrV); ok && pv.Obj != nil {
+			if val, isT := fr.load(st, pv).(*Term); isT {
+				fr.store(st, args[0], val, nil)
+				v.assume("Set on an opaque value type is a copy (" + v.funcKey(fn) + ")")
+				return args[0], true
+			}
+		}
+	}
 	if !v.isRing(rt) {
 		return nil, false
 	}
